@@ -29,6 +29,7 @@ def write(sim, tier, seed, wall, evals, runs_done, runs_planned, distinct, sampl
         "outcome_classes": stats.group("outcomes"),
         "arms": stats.group("arms"),
         "enumeration": stats.group("enum"),
+        "component_classes_exercised": stats.group("classes"),
         "real_vs_stub": sim.real_vs_stub,
         "known_findings_matched": known,
         "harness_errors": len(errors),
